@@ -169,6 +169,8 @@ def conclude(pid, mod, tier, seed, plan, m, wall):
         wall_s=round(wall, 2), violations=len(new_viol))
     with open(os.path.join(OUT_DIR, 'evidence', '%s.json' % pid), 'w') as f:
         json.dump(ev, f, indent=1, default=repr)
+    global _LAST_RC
+    _LAST_RC = 1 if new_viol else (2 if inconclusive else 0)
     print('%s %s seed=%d: evaluations=%d distinct_nontrivial=%d violations=%d known=%d wall=%.1fs' % (
         pid, tier, seed, m['evaluations'], nontrivial, len(new_viol), sum(len(v) for v in known_seen.values()), wall))
     keys = sorted(m['counters'])
@@ -221,4 +223,14 @@ def replay(pid, mod, path):
 
 
 if __name__ == '__main__':
-    sys.exit(main(sys.argv[1:]))
+    try:
+        rc = main(sys.argv[1:])
+        sys.stdout.flush()
+    except BrokenPipeError:
+        # the reader went away (e.g. `| head -1`): the verdict is still in the evidence file; do not crash
+        try:
+            sys.stdout = open(os.devnull, 'w')
+        except Exception:       # noqa
+            pass
+        rc = 0 if not globals().get('_LAST_RC') else globals()['_LAST_RC']
+    sys.exit(rc)
